@@ -58,7 +58,12 @@ impl<'p> Interp<'p> {
 					}
 					last = V::Unit;
 				}
-				syn::Stmt::Item(_) => {
+				syn::Stmt::Item(it) => {
+					if let syn::Item::Const(c) = it {
+						let v = self.eval_hint(&c.expr, Some(&c.ty))?;
+						let v = self.coerce(v, &c.ty);
+						self.bind(&c.ident.to_string(), v);
+					}
 					last = V::Unit;
 				}
 				syn::Stmt::Expr(e, semi) => {
@@ -754,19 +759,29 @@ impl<'p> Interp<'p> {
 	fn eval_match(&mut self, m: &syn::ExprMatch, hint: Option<&syn::Type>) -> R<V> {
 		let scrut = if Self::is_place_expr(&m.expr) {
 			let c = self.place(&m.expr)?;
-			let c2 = self.deref_cell(&c);
-			let is_ref = !Rc::ptr_eq(&c, &c2);
-			if is_ref {
-				V::Ref(c2)
-			} else {
-				// match on a place by value but allow ref bindings: use a reference to the place
+			let holds_ref = matches!(&*c.v.borrow(), V::Ref(_));
+			if holds_ref {
+				// the scrutinee is a reference: default binding mode binds by reference
+				V::Ref(self.deref_cell(&c))
+			} else if Self::pat_has_ref(&m.arms) {
 				V::Ref(c)
+			} else {
+				// by-value scrutinee: bindings copy out of it
+				self.read(&c)
 			}
 		} else {
 			self.eval(&m.expr)?
 		};
 		let scrut = self.force(scrut)?;
 		self.match_arms(m, 0, scrut, hint)
+	}
+
+	fn pat_has_ref(arms: &[syn::Arm]) -> bool {
+		use quote::ToTokens;
+		arms.iter().any(|a| {
+			let t = a.pat.to_token_stream().to_string();
+			t.contains("ref ") || t.starts_with("ref")
+		})
 	}
 
 	fn match_arms(&mut self, m: &syn::ExprMatch, from: usize, scrut: V, hint: Option<&syn::Type>) -> R<V> {
